@@ -180,6 +180,9 @@ func (fr *Frame) execCall(v ssa.Value, cc *ssa.CallCommon, ins ssa.Instruction) 
 	}
 	// dynamic call through a function value: call-site clauses may name it "dyncall" or "functype:<pkg>.<Type>"
 	fr.callsiteObligations("dyncall", sig, nil, fr.callArgs(cc), ins)
+	if k := fieldCallKey(cc.Value); k != "" {
+		fr.callsiteObligations(k, sig, nil, fr.callArgs(cc), ins)
+	}
 	if n, ok := types.Unalias(cc.Value.Type()).(*types.Named); ok && n.Obj().Pkg() != nil {
 		fr.callsiteObligations("functype:"+n.Obj().Pkg().Path()+"."+n.Obj().Name(), sig, nil, fr.callArgs(cc), ins)
 	}
@@ -417,6 +420,11 @@ func (fr *Frame) execDeferredCall(d *deferRec, ins ssa.Instruction) {
 	cc := d.call
 	vc := fr.vc
 	sig := cc.Signature()
+	if !cc.IsInvoke() {
+		if k := fieldCallKey(cc.Value); k != "" {
+			fr.callsiteObligations(k, sig, nil, d.args, d.instr)
+		}
+	}
 	if b, ok := cc.Value.(*ssa.Builtin); ok {
 		_ = b
 		vc.note("deferred builtin call ignored: " + b.Name())
@@ -546,6 +554,9 @@ func (fr *Frame) applyContract(c *Contract, sig *types.Signature, recvT types.Ty
 	for k, e := range c.Ensures {
 		t, err := env2.evalBool(e.E)
 		if err != nil {
+			if strings.HasPrefix(e.Name, "opt-") {
+				continue // clause specialised to other argument types: not applicable at this call site
+			}
 			vc.sess.fatalf("contract %s ensures %d: %v", c.Key, k+1, err)
 		}
 		vc.assume(tImp(fr.curReach, t))
@@ -1118,4 +1129,22 @@ func (fr *Frame) pureAxioms(c *Contract, name string, sig *types.Signature, recv
 		}
 		te.pre.Add(fmt.Sprintf("ax:%s#e%d", name, k), fmt.Sprintf("(assert (forall (%s) (! %s :pattern (%s))))", strings.Join(binders, " "), t.S, ap.S))
 	}
+}
+
+// fieldCallKey names a dynamic call of a function stored in a struct field: "fieldcall:<pkg>.<Type>.<field>".
+func fieldCallKey(v ssa.Value) string {
+	u, ok := v.(*ssa.UnOp)
+	if !ok || u.Op != token.MUL {
+		return ""
+	}
+	fa, ok := u.X.(*ssa.FieldAddr)
+	if !ok {
+		return ""
+	}
+	st := derefType(fa.X.Type())
+	n, ok := types.Unalias(st).(*types.Named)
+	if !ok || n.Obj().Pkg() == nil {
+		return ""
+	}
+	return "fieldcall:" + n.Obj().Pkg().Path() + "." + n.Obj().Name() + "." + n.Underlying().(*types.Struct).Field(fa.Field).Name()
 }
